@@ -104,26 +104,27 @@ def reproduce(drv, cfg, group_lines, extra_data=None, module="SnapTrace"):
     raise Broken("replay validation: %s\n%s" % (r.error, r.out[-2000:]))
 
 
-def validate(prop, cfg, lines, v, drv, classify=None, max_fail=6, timeout=7200, module="SnapTrace", max_known=40, require_repro=True):
-    """Run TLC over the whole trace; on a failing record: reproduce its group, classify, report, remove the group, continue.
-    Returns dict with states, transitions, stats."""
+def _validate_chunk(prop, cfg, lines, v, drv, classify, max_fail, timeout, module, max_known, require_repro, workers, lock):
+    """One TLC process over one chunk of whole groups; failing groups are reproduced, classified, reported, removed, and the
+    chunk re-run so that the rest of it is still examined."""
     lines = list(lines)
     total_states = 0
     total_trans = 0
-    stats = None
+    stats = []
     fails = 0
     knowns = 0
     import re
     while lines:
-        r = vlib.run_tlc(module, cfg, data={"snap_trace.ndjson": "\n".join(lines) + "\n"}, timeout=timeout, heap="6g")
+        r = vlib.run_tlc(module, cfg, data={"snap_trace.ndjson": "\n".join(lines) + "\n"}, timeout=timeout, heap="4g", workers=workers)
         total_states += r.distinct
         total_trans += r.generated
-        if stats is None or r.ok:
-            stats = r.vecs
         if r.ok:
+            stats = r.vecs
             break
+        if not stats:
+            stats = r.vecs
         if not r.violated:
-            raise Broken("SnapTrace/%s: %s\n%s" % (cfg, r.error, r.out[-3000:]))
+            raise Broken("%s/%s: %s\n%s" % (module, cfg, r.error, r.out[-3000:]))
         m = re.findall(r"l = (\d+)", r.trace_text)
         if not m:
             raise Broken("cannot locate failing record\n" + r.out[-2000:])
@@ -137,47 +138,74 @@ def validate(prop, cfg, lines, v, drv, classify=None, max_fail=6, timeout=7200, 
             inv, fresh = reproduce(drv, cfg, grp, module=module)
         rec = json.loads(lines[idx])
         if inv is None and not require_repro:
-            # determinism properties: the recorded calls ARE real behaviour (outputs of pure calls, no timing in the observation);
-            # try a few more times so that the replay file says how often it shows, but report either way
-            tries = 0
-            for tries in range(1, 6):
-                inv, fresh = reproduce(drv, cfg, grp, module=module)
-                if inv:
-                    break
-            rec["_reproduced_after_tries"] = tries if inv else 0
-            inv = inv or r.violated
+            # determinism properties: the recorded calls ARE real behaviour (outputs of pure calls, no timing in the observation)
+            rec["_reproduced"] = False
+            inv = r.violated
         if inv is None:
-            raise Broken("%s failed on a recorded call but the same call re-executed satisfies it (flaky observation?): %s"
+            raise Broken("%s failed on a recorded call but the same call re-executed (5 times) satisfies it (flaky observation?): %s"
                          % (r.violated, lines[idx][:500]))
         what = "%s fails for %s polygon %s on %s (keep=%s rev=%s levels=%s): returned %s" % (
             inv, rec["tag"], json.dumps(rec["poly"]), rec["grid"], rec["keep"], rec["rev"], json.dumps(rec["lv"]),
             json.dumps(rec["res"])[:600])
         fid = classify(inv, rec, grp) if classify else None
-        if fid:
-            v.known_finding(fid[0], fid[1])
-            knowns += 1
-            if fid[0] in ("F9", "F10", "F8"):
-                # these findings are keyed by a condition on the record itself: drop every other record with the same
-                # key at once instead of re-running TLC per record (each is still matched against the key)
-                keep = []
-                for ln in lines:
-                    rr = json.loads(ln)
-                    f2 = classify(inv, rr, [ln]) if rr.get("out", "ok") != "ok" or fid[0] == "F8" else None
-                    if f2 and f2[0] == fid[0] and ln not in grp:
-                        v.known_finding(f2[0], f2[1])
-                    else:
-                        keep.append(ln)
-                lines = [x for x in keep if x not in grp]
-                continue
-            if knowns >= max_known:
-                raise Broken("more than %d known-finding occurrences in one run: the bounds of this check need refitting" % max_known)
-        else:
-            v.violation(what, {"kind": "snap-group", "cfg": cfg, "invariant": inv, "records": [json.loads(x) for x in grp]}, name="snap")
-            fails += 1
+        with lock:
+            if fid:
+                v.known_finding(fid[0], fid[1])
+                knowns += 1
+                if fid[0] in ("F9", "F10", "F8"):
+                    # keyed by a condition on the record itself: drop every other record with the same key at once
+                    keep = []
+                    for ln in lines:
+                        rr = json.loads(ln)
+                        f2 = classify(inv, rr, [ln]) if rr.get("out", "ok") != "ok" or fid[0] == "F8" else None
+                        if f2 and f2[0] == fid[0] and ln not in grp:
+                            v.known_finding(f2[0], f2[1])
+                        else:
+                            keep.append(ln)
+                    lines = [x for x in keep if x not in grp]
+                    continue
+                if knowns >= max_known:
+                    raise Broken("more than %d known-finding occurrences in one chunk: the bounds of this check need refitting" % max_known)
+            else:
+                v.violation(what, {"kind": "snap-group", "cfg": cfg, "invariant": inv, "records": [json.loads(x) for x in grp]}, name="snap")
+                fails += 1
         del lines[lo:hi + 1]
         if fails >= max_fail:
             break
-    return {"states": total_states, "transitions": total_trans, "stats": stats or []}
+    return {"states": total_states, "transitions": total_trans, "stats": stats}
+
+
+def validate(prop, cfg, lines, v, drv, classify=None, max_fail=6, timeout=7200, module="SnapTrace", max_known=40, require_repro=True):
+    """Validate the whole trace with TLC. Large traces are cut at group boundaries into chunks that separate TLC processes
+    validate concurrently (a record only refers to later records of its own group)."""
+    import threading
+    lines = list(lines)
+    nchunks = max(1, min(8, len(lines) // 3000))
+    chunks = []
+    if nchunks == 1:
+        chunks = [lines]
+    else:
+        per = len(lines) // nchunks
+        start = 0
+        for c in range(nchunks):
+            end = len(lines) if c == nchunks - 1 else min(len(lines), start + per)
+            while 0 < end < len(lines) and json.loads(lines[end])["g"] == json.loads(lines[end - 1])["g"]:
+                end += 1
+            if end > start:
+                chunks.append(lines[start:end])
+            start = end
+    lock = threading.Lock()
+    workers = 16 if len(chunks) == 1 else max(2, 16 // len(chunks))
+    results = []
+    with concurrent.futures.ThreadPoolExecutor(max_workers=len(chunks)) as ex:
+        futs = [ex.submit(_validate_chunk, prop, cfg, ch, v, drv, classify, max(1, max_fail // len(chunks) + 1), timeout, module, max_known,
+                          require_repro, workers, lock) for ch in chunks]
+        for f in futs:
+            results.append(f.result())
+    out = {"states": sum(r["states"] for r in results), "transitions": sum(r["transitions"] for r in results), "stats": []}
+    for r in results:
+        out["stats"].extend(r["stats"])
+    return out
 
 
 def summarize(stats_vecs):
